@@ -17,7 +17,9 @@ RULE = ("seeded value programs with structures larger than each limit (wide list
         "object chains, long strings) bound first / last / in the middle of 1-7 locals x MAX_VARIABLES in "
         "{0,1,2,5,20,1000} x MAX_STRING_LENGTH in {0,1,8,1024} x MAX_COLLECTION_SIZE in {0,1,3,10} x MAX_VAR_DEPTH in "
         "{1,2,3,5} x watches x all_frame; invariants: count, string, collection and depth bounds, truncated flag "
-        "exact, breadth-first closure (every real node shallower than the deepest recorded level is present); "
+        "exact, breadth-first closure (every real node shallower than the deepest recorded level is present); arm "
+        "race: two tracepoints with different limits hit by two threads at once under line-level schedules (each "
+        "snapshot obeys its own limits); "
         "non-trivial = a snapshot in which at least one limit actually cut something; distinct = distinct scenarios")
 COMPONENTS = {"real": ["whole Deep agent", "collector/BFS/variable processors"],
               "stub": ["threads/clock/executor", "gRPC channel + DEEP service"]}
@@ -30,8 +32,45 @@ NOTE = "Trusts refmodel/snapcheck; time budget (MAX_TP_PROCESS_TIME) exhaustion 
 TECHNIQUE = "deterministic simulation: randomised limits as knobs, invariant monitoring vs reference traversal"
 
 
+RACE_SRC = '''
+def mk_deep(d):
+    v = 7
+    for _i in range(d):
+        v = [v]
+    return v
+
+def fa():
+    big = [[i, str(i) * 40] for i in range(60)]
+    txt = 'x' * 300
+    st = set(range(40))
+    deep = mk_deep(7)
+    tup = tuple('t%d' % i for i in range(30))
+    probe()
+    return 0
+
+def fb():
+    big = [[i, str(i) * 40] for i in range(60)]
+    txt = 'x' * 300
+    st = set(range(40))
+    deep = mk_deep(7)
+    tup = tuple('t%d' % i for i in range(30))
+    probe()
+    return 0
+'''
+
+
+def _gen_limits(r):
+    return {"MAX_VARIABLES": r.choice((3, 12, 40, 1000)), "MAX_STRING_LENGTH": r.choice((5, 10, 1024)),
+            "MAX_COLLECTION_SIZE": r.choice((1, 3, 10, 50)), "MAX_VAR_DEPTH": r.choice((2, 3, 5, 8))}
+
+
 def generate(seed, tier):
     r = random.Random(seed)
+    if r.random() < 0.25:
+        # arm "race": two tracepoints with DIFFERENT limits are hit by two threads at once, with a pre-emption point at
+        # every line of the collector (mode D): each snapshot must obey its own tracepoint's limits
+        return {"arm": "race", "limits": [_gen_limits(r), _gen_limits(r)], "reps": r.choice((1, 2)),
+                "knobs": common.race_knobs(r, stall_p=0.0, p_switch=r.choice((0.05, 0.15, 0.4)))}
     opts = {"n": r.randrange(1, 8), "big": True, "plain": True, "order": r.choice(("asis", "reverse", "shuffle"))}
     lim = {}
     if r.random() < 0.8:
@@ -52,6 +91,10 @@ def generate(seed, tier):
 
 
 def shrink_candidates(s):
+    if s.get("arm") == "race":
+        if s["reps"] > 1:
+            yield dict(s, reps=1)
+        return
     tp = s["tps"][0]
     for wl in common.drop_one(tp["watches"]):
         yield dict(s, tps=[dict(tp, watches=wl)])
@@ -66,7 +109,92 @@ def shrink_candidates(s):
         yield dict(s, prog=dict(s["prog"], opts=dict(o, order="asis")))
 
 
+def _depth(view, roots):
+    best = 0
+    seen = {}
+    q = [(v.ID, 1) for v in roots]
+    while q:
+        vid, d = q.pop(0)
+        if vid in seen or vid not in view.var_lookup:
+            continue
+        seen[vid] = d
+        best = max(best, d)
+        q += [(c.ID, d + 1) for c in view.var_lookup[vid].children]
+    return best
+
+
+def _race(scenario, ch):
+    import os
+    import sys
+    from simkit import hostgen, host, world, shims, kernel, linetrace, seams
+    viol = []
+    info = {"both": 0}
+
+    def main(k):
+        from deep.api.tracepoint.trigger import LocationAction, LineLocation, Trigger, Location
+        p = hostgen.start_program("simlimrace", prelude=False)
+        for ln in RACE_SRC.strip("\n").split("\n"):
+            p.lines.append(ln)
+        p.finish()
+        lines = [i + 1 for i, ln in enumerate(p.source.split("\n")) if ln.strip() == "probe()"]
+        w = world.World(k, cfg={"NO_TRACE": True}, python_plugin=False)
+        w.start()
+        k.settle()
+        trig = []
+        for i, lim in enumerate(scenario["limits"]):
+            conf = {"watches": [], "fire_count": "-1", "fire_period": "-100000000"}
+            conf.update(lim)
+            act = LocationAction("tp%d" % i, None, conf, LocationAction.ActionType.Snapshot)
+            trig.append(Trigger(LineLocation(p.basename, lines[i], Location.Position.START), [act]))
+        w.handler.new_config(trig)
+        handler = w.handler
+        tracer = linetrace.LineTracer(k, (os.path.join(seams.SRC, "deep/processor"),))
+
+        def probe():
+            handler.trace_call(sys._getframe(1), "line", None)
+        g = p.load({"probe": probe})
+        tracer.install()
+        fns = [lambda: [g["fa"]() for _ in range(scenario["reps"])], lambda: [g["fb"]() for _ in range(scenario["reps"])]]
+        host.run_threads(k, fns)
+        tracer.uninstall()
+        for (_, th, es) in w.pushed:
+            i = int(es.tracepoint.id[2:])
+            lim = dict(snapcommon.DEFAULTS)
+            lim.update(scenario["limits"][i])
+            view = snapcommon.SnapView(es)
+            other = scenario["limits"][1 - i]
+            n = len(view.var_lookup)
+            if n > lim["MAX_VARIABLES"] + 1:
+                viol.append(V("race:count-over-budget", "%s holds %d variables, its MAX_VARIABLES is %d (the other "
+                              "tracepoint's is %d)" % (es.tracepoint.id, n, lim["MAX_VARIABLES"], other["MAX_VARIABLES"])))
+            for vid, var in view.var_lookup.items():
+                if len(var.value) > lim["MAX_STRING_LENGTH"]:
+                    viol.append(V("race:string-over-limit", "%s: value of length %d, its limit is %d (other %d)" % (
+                        es.tracepoint.id, len(var.value), lim["MAX_STRING_LENGTH"], other["MAX_STRING_LENGTH"])))
+                    break
+            for vid, var in view.var_lookup.items():
+                if var.type in ("list", "tuple", "set", "frozenset") and len(var.children) > lim["MAX_COLLECTION_SIZE"]:
+                    viol.append(V("race:collection-over-limit", "%s: %s with %d children, its limit is %d (other %d)" % (
+                        es.tracepoint.id, var.type, len(var.children), lim["MAX_COLLECTION_SIZE"], other["MAX_COLLECTION_SIZE"])))
+                    break
+            if view.frames:
+                d = _depth(view, view.frames[0].variables)
+                if d > lim["MAX_VAR_DEPTH"]:
+                    viol.append(V("race:depth-over-limit", "%s: depth %d, its limit is %d (other %d)" % (
+                        es.tracepoint.id, d, lim["MAX_VAR_DEPTH"], other["MAX_VAR_DEPTH"])))
+        info["both"] = len({es.tracepoint.id for (_, _, es) in w.pushed})
+        k.probe("race_snapshots", len(w.pushed))
+        w.deep.shutdown()
+        w.close()
+
+    k = common.run_in_kernel(ch, scenario["knobs"], main)
+    key = repr((scenario["limits"], k.order_sig.hexdigest()[:10])) if info["both"] == 2 else None
+    return common.result(k, snapcommon.dedup(viol), key=key)
+
+
 def execute(scenario, ch):
+    if scenario.get("arm") == "race":
+        return _race(scenario, ch)
     sc = dict(scenario, tps=[dict(t) for t in scenario["tps"]], ref_depth=7)
     k, cases, ctx = snapcommon.run_cases(sc, ch)
     viol = []
